@@ -199,3 +199,77 @@ def const_values(fi, e):
                     out.extend(vals)
         return out
     return []
+
+
+def memo_sites(fi):
+    """Memoisation of a function's result in storage that outlives the call. -> [(cache_expr_text, key_node, return_node, missing_params)] for every
+    early `return CACHE[key]` / `return CACHE.get(key)` guarded by `key in CACHE` (or a `try ... except KeyError`), where CACHE is derived from the
+    receiver (`self.x`, `self.__dict__[...]`, `self.__dict__.setdefault(..)`), a module global or a function attribute. `missing_params` are the
+    parameters (receiver excluded) that the rest of the body reads but the key does not mention: a later call that differs only in one of them is
+    answered with the first call's result."""
+    import ast as _ast
+    from .front import unparse as _un
+    self_name = getattr(fi, 'self_name', None)
+    params = [p for p in list(fi.params) + list(getattr(fi, 'kwonly', [])) if p != self_name]
+    persistent = {}
+
+    def is_persistent(e, depth=0):
+        if depth > 4:
+            return False
+        if isinstance(e, _ast.Attribute):
+            return (isinstance(e.value, _ast.Name) and e.value.id == self_name) or is_persistent(e.value, depth + 1)
+        if isinstance(e, _ast.Subscript):
+            return is_persistent(e.value, depth + 1)
+        if isinstance(e, _ast.Call) and isinstance(e.func, _ast.Attribute) and e.func.attr in ('setdefault', 'get'):
+            return is_persistent(e.func.value, depth + 1)
+        if isinstance(e, _ast.Call) and isinstance(e.func, _ast.Name) and e.func.id == 'getattr' and e.args:
+            return isinstance(e.args[0], _ast.Name) and e.args[0].id == self_name
+        if isinstance(e, _ast.Name):
+            if e.id in persistent:
+                return persistent[e.id]
+            if e.id in fi.module.consts and e.id not in fi.defs():
+                return True
+            d = fi.unique_def(e.id)
+            persistent[e.id] = False
+            r = d is not None and is_persistent(d, depth + 1)
+            persistent[e.id] = r
+            return r
+        return False
+    out = []
+    for r in fi.returns():
+        v = r.value
+        if v is None:
+            continue
+        cache = key = None
+        if isinstance(v, _ast.Subscript) and is_persistent(v.value):
+            cache, key = v.value, v.slice
+        elif isinstance(v, _ast.Call) and isinstance(v.func, _ast.Attribute) and v.func.attr == 'get' and v.args and is_persistent(v.func.value):
+            cache, key = v.func.value, v.args[0]
+        if cache is None:
+            continue
+        # only EARLY returns: guarded by a membership test of the same cache (the final `return cache[k]` after the store is not a lookup)
+        guarded = False
+        for if_, br in enclosing_ifs(fi, r):
+            for n in _ast.walk(if_.test):
+                if isinstance(n, _ast.Compare) and len(n.ops) == 1 and isinstance(n.ops[0], (_ast.In, _ast.NotIn)) and _un(n.comparators[0]) == _un(cache):
+                    guarded = True
+                if isinstance(n, _ast.Compare) and any(isinstance(o, (_ast.IsNot, _ast.Is)) for o in n.ops):
+                    guarded = guarded or any(_un(cache) in _un(x) for x in [n.left] + n.comparators)
+        for a in fi.ancestors(r):
+            if isinstance(a, _ast.Try) and any(h.type is not None and 'KeyError' in _un(h.type) for h in a.handlers) and any(contains(s, r) for s in a.body):
+                guarded = True
+        if not guarded:
+            continue
+        key_names = {n.id for n in _ast.walk(key) if isinstance(n, _ast.Name)}
+        # names the key is built from, one level of local definitions
+        for nm in list(key_names):
+            d = fi.unique_def(nm)
+            if d is not None:
+                key_names |= {n.id for n in _ast.walk(d) if isinstance(n, _ast.Name)}
+        used = set()
+        for n in _ast.walk(fi.node):
+            if isinstance(n, _ast.Name) and isinstance(n.ctx, _ast.Load) and n.id in params:
+                used.add(n.id)
+        missing = sorted(p for p in used if p not in key_names)
+        out.append((_un(cache), key, r, missing))
+    return out
